@@ -8,6 +8,19 @@ def run(ctx):
     from ..core import Result
     res = Result()
     st = _enva.run_monitors(ctx, res, MON)
+    # long baseline runs (no deviations, all six baselines) of a cell-bounded water configuration "late in a very long
+    # run": the lazy-deletion counters of the heap scheduler overflow at different moments of the first chains
+    from .. import specs as specmod
+    J = "2018_JCP_149_064113/"
+    late = [specmod.scaled(J + "water/coulomb_power_bounded_lj_cell_bounded.ini", n, horizon=150,
+                           name="water/coulomb_power_bounded_lj_cell_bounded*%d@2^32-%d" % (n, c),
+                           info={"preset_counters": 2 ** 32 - c})
+            for n in (2, 3) for c in ((2, 3, 4, 5, 6, 8, 12) if ctx.thorough else (3, 6, 8, 12))]
+    st2 = _enva.run_monitors(ctx, res, MON, specs_override=late, quick_baselines=[0, 1, 2, 3, 4, 5], deviations=0,
+                             derive=False, resume_legs=())
+    st["executions"] += st2["executions"]
+    st["outcomes"] |= st2["outcomes"]
+    st["per_spec"].update(st2["per_spec"])
     res.coverage = _enva.coverage(st, MON, "C07 monitor at every top-level insert: event times never decrease; each "
                                   "unit continues from its previous position with its previous velocity (mod box); "
                                   "units at rest do not move; one chain with the initial speed; positions in [0, L); "
